@@ -4,6 +4,7 @@ Helper lemmas for the architectural laws of the Z80 reference semantics (Props/C
 `emulate` call is in terms of `exec`/`execED`/`execCB` once the opcode bytes in memory are known.
 -/
 import ZxVerif.Lemmas.Z80Trace
+import ZxVerif.Props.C01
 set_option linter.constructorNameAsVariable false
 set_option linter.unusedSimpArgs false
 namespace ZxVerif.Z80
